@@ -286,7 +286,7 @@ type connRun struct {
 	overrun  bool
 	ctx      context.Context
 	cancel   func() // ends the request context the way its kind is ended: cancel, cancel with a cause, expiry
-	patience int64 // 0: none
+	patience int64  // 0: none
 	reject   uint64
 	gbCalls  int
 	gbAfter  int
